@@ -485,6 +485,193 @@ Proof.
   intros o H. vm_compute in H. repeat (destruct H as [H|H]; [subst o; reflexivity|]). contradiction.
 Qed.
 
+(* ================================================================ EXTENSION X8: from the raw log to the message handed to the signer ================
+   Model: model/EvmLog.v.  A raw log (address, topics, data, block hash / number, tx hash) is decoded as go-ethereum's UnpackLog
+   decodes it for the LogMessagePublished entry of abi.go's ABI (word reads at i*32, the dynamic `bytes` through offset and length
+   with the library's bounds checks in their order; this library version reads an integer from the LOW bytes of its word and does not
+   look at the padding), turned into the MessagePublication literal of the source - generated field by field for the subscription
+   path and for MessageEventsForTransaction - and the watcher of model/EvmWatcher.v is re-run over entries that carry their content.
+   `sol_emit` = the log Implementation.sol's publishMessage emits (declaration and emit arguments read from the Solidity source). *)
+From Coq Require Import Strings.Byte.
+From WH Require Import lib.Bytes lib.EvmAbi lib.Keccak gen.ExtractedEvmLog model.EvmLog proofs.EvmLogProofs.
+
+(* the event id abigen compares Topics[0] with = Keccak-256 of the signature built from the ABI JSON = the topic constant of
+   by_transaction.go = the id of the event the contract declares *)
+Theorem C10_event_id_is_the_topic_constant :
+  evm_abi_lmp_id = keccak256 evm_abi_lmp_sig /\ unbe evm_abi_lmp_id = evm_lmp_topic /\ sol_lmp_id = evm_abi_lmp_id /\
+  sol_lmp_decl = evm_abi_lmp /\ sol_lmp_emit_args = map (fun x : ainput => fst (fst x)) sol_lmp_decl.
+Proof. exact (conj lmp_id_is_keccak (conj lmp_id_is_topic (conj sol_id_is_abi_id (conj sol_decl_is_abi sol_emit_args_match)))). Qed.
+
+(* what UnpackLog returns for ANY raw log (any topics, any data bytes), in closed form: panic on an empty topic list; signature error;
+   empty data = all fields zero; fewer than 128 / 160 bytes, offset + 32 or offset + 32 + length beyond the data = error; topic count
+   other than 2 = error; otherwise the fields are the low 2 / 8 / 4 / 1 bytes of words 0 / 1 / 2 / 4, the payload is
+   data[offset+32 : offset+32+length] and the sender the last 20 bytes of topic 1 - padding bytes, the position of the tail and
+   trailing bytes do not matter *)
+Theorem C10_unpack_log_closed_form : forall r, decode_log r = decode_closed r.
+Proof. exact decode_log_closed_form. Qed.
+
+Theorem C10_malformed_data_yields_no_event :
+  (forall r, (0 < length (rl_data r))%nat -> blen (rl_data r) < 160 -> forall e, decode_log r <> DOk e) /\
+  (forall r, (0 < length (rl_data r))%nat -> unbe (sub (rl_data r) 96 32) + 32 > blen (rl_data r) -> forall e, decode_log r <> DOk e) /\
+  (forall r, (0 < length (rl_data r))%nat ->
+     let off := unbe (sub (rl_data r) 96 32) in off + 32 + unbe (sub (rl_data r) off 32) > blen (rl_data r) -> forall e, decode_log r <> DOk e) /\
+  (forall r, length (rl_topics r) <> 2%nat -> forall e, decode_log r <> DOk e) /\
+  (forall r t0 ts, rl_topics r = t0 :: ts -> t0 <> evm_abi_lmp_id -> decode_log r = DErr DSig) /\
+  (forall r, decode_log r = DPanic <-> rl_topics r = []).
+Proof.
+  exact (conj decode_short_data (conj decode_offset_out_of_range (conj decode_length_out_of_range
+        (conj decode_wrong_topic_count (conj decode_other_signature decode_panic_iff))))).
+Qed.
+
+(* decode (encode x) = x for what the contract emits: every sender, every value in the range of its Solidity type, every payload *)
+Theorem C10_decode_of_emitted_log : forall contract a bh num tx, in_range a -> decode_log (sol_emit contract a bh num tx) = DOk a.
+Proof. exact decode_sol_emit. Qed.
+
+(* ... and the message and pending key such a log stands for: the sender left-padded to 32 bytes, sequence, nonce, target chain,
+   consistency level, the payload byte for byte, the block time in whole seconds, the watcher's chain id, the transaction hash *)
+Theorem C10_emitted_log_message_fields : forall chain contract a bh num tx bt, in_range a -> 0 <= bt < two63 ->
+  decode_log (sol_emit contract a bh num tx) = DOk a /\
+  message_of_log chain (sol_emit contract a bh num tx) bt a =
+    mkXMsg tx bt (x_nonce a) (x_seq a) chain (x_target a) (repeat x00 12 ++ x_sender a) (x_payload a) (x_cl a) /\
+  key_of_raw (sol_emit contract a bh num tx) a = mkXKey tx bh (repeat x00 12 ++ x_sender a) (x_seq a).
+Proof. exact emitted_message_fields. Qed.
+
+(* REFINEMENT: the abstraction (byte strings -> the identifiers of model/EvmWatcher.v, injective) commutes with every step, so every
+   theorem above about `run` (safety, exactly once, drops, abandonment, key independence) holds for the watcher over raw logs *)
+Theorem C10_log_refines_watcher : forall c ops s,
+  abs_state (fst (xrun c s ops)) = fst (run (abs_cfg c) (abs_state s) (map (abs_op c) ops)) /\
+  map (map abs_out) (snd (xrun c s ops)) = snd (run (abs_cfg c) (abs_state s) (map (abs_op c) ops)).
+Proof. exact xrun_refines. Qed.
+
+Theorem C10_abstraction_injective :
+  (forall a b, abs_key a = abs_key b -> a = b) /\ (forall a b, abs_msg a = abs_msg b -> a = b).
+Proof. exact (conj abs_key_inj abs_msg_inj). Qed.
+
+(* END TO END, subscription path, every history of raw logs / heads / re-observations from the empty watcher: a message that leaves
+   the per-head scan carries exactly the fields of ONE delivered log that unpacked - tx hash, int64(block time) of that delivery,
+   nonce, sequence, the watcher's chain id, target chain, the padded sender, the payload as sliced out of the data, consistency level -
+   under the key (tx, block hash, padded sender, sequence) of that log, and is justified in that very step (depth reached in the
+   source's uint64 arithmetic, receipt error-free with status 1 and the block hash of the log) *)
+Theorem C10_forwarded_message_is_log_content : forall c hist n safe orc k m,
+  In (XConfirmed k m) (snd (xstep c (fst (xrun c [] hist)) (XHead n safe orc))) ->
+  exists r t e,
+    In (XLog r (Some t)) hist /\ decode_log r = DOk e /\
+    m = message_of_log (xc_chain c) r t e /\ k = key_of_raw r e /\
+    u64 (rl_num r + evm_expected (xc_wait c) safe (x_cl e)) <= u64 n /\
+    orc (abs_key k) = mkAns (Some (1, enc (rl_bh r))) ENone.
+Proof. exact forwarded_is_log_content. Qed.
+
+(* the pending key is a function of the log alone *)
+Theorem C10_pending_key_is_a_function_of_the_log : forall c r t e, xkey_of_log c r t e = key_of_raw r e.
+Proof. exact pending_key_of_log. Qed.
+
+(* END TO END, re-observation path: a re-observed message carries exactly the fields of ONE log of the receipt with address = the
+   configured contract, topics = [event id; sender] that unpacked, out of a status-1 receipt, with the block time of the receipt's
+   block, deep enough w.r.t. the head read before the receipt *)
+Theorem C10_reobserved_message_is_log_content : forall c hb ha rc bt m,
+  In (XReobserved m) (xreobserve c hb ha rc bt) ->
+  exists hd r t blk l e,
+    hb = Some hd /\ rc = Some r /\ xr_status r = 1 /\ bt = Some t /\ xr_blk r = Some blk /\
+    In (Some l) (xr_logs r) /\ rl_addr l = xc_contract c /\ (exists t1, rl_topics l = [evm_abi_lmp_id; t1]) /\ decode_log l = DOk e /\
+    m = message_of_log (xc_chain c) l t e /\
+    u64 hd <> 0 /\ u64 (u64 blk + (if xc_wait c then x_cl e else 0)) <= u64 hd.
+Proof. exact reobserved_is_log_content. Qed.
+
+(* MALFORMED logs.  Subscription path: abigen's goroutine returns the error, the subscription ends, Run returns (XDied; the supervisor
+   re-enters it) - nothing is forwarded and w.pending is exactly what it was; a log without topics panics there (Topics[0]) *)
+Theorem C10_malformed_log_ends_run_and_leaves_pending_untouched : forall c s r bt x,
+  decode_log r = DErr x -> xstep c s (XLog r bt) = (s, [XDied]).
+Proof. exact malformed_log_on_subscription. Qed.
+Theorem C10_topicless_log_panics : forall c s r bt, rl_topics r = [] -> xstep c s (XLog r bt) = (s, [XPanic]).
+Proof. exact topicless_log_on_subscription. Qed.
+(* re-observation path: one core-contract LogMessagePublished log in the receipt that does not unpack, and the request forwards
+   nothing at all (MessageEventsForTransaction returns "failed to parse log") *)
+Theorem C10_malformed_log_in_receipt_forwards_nothing : forall c hb ha r bt l x,
+  In (Some l) (xr_logs r) -> rl_addr l = xc_contract c -> (exists ts, rl_topics l = evm_abi_lmp_id :: ts) -> decode_log l = DErr x ->
+  forall m, ~ In (XReobserved m) (xreobserve c hb ha (Some r) bt).
+Proof. exact malformed_log_in_receipt. Qed.
+
+(* ---------------------------------------------------------------- concrete instances (boundary values) *)
+Definition ex8_contract : bytes := be 20 14651161671794117674551848346179720820815891478.
+Definition ex8_id : bytes := evm_abi_lmp_id.
+(* sender with leading zero bytes, target chain 65535, sequence 2^64-1, nonce 2^32-1, level 255, payload of 33 bytes *)
+Definition ex8_ev : xev := mkXev (be 20 4660) 65535 18446744073709551615 4294967295 (repeat xab 33) 255.
+Definition ex8_tx : bytes := be 32 777.
+Definition ex8_bh : bytes := be 32 888.
+Definition ex8_log : rawlog := sol_emit ex8_contract ex8_ev ex8_bh 1000 ex8_tx.
+Definition ex8_cfg : xcfg := mkXCfg true ex8_contract 4.
+Lemma ex8_in_range : in_range ex8_ev.
+Proof. unfold in_range, ex8_ev, two63, blen. cbn [x_sender x_target x_seq x_nonce x_cl x_payload]. rewrite be_length, repeat_length. cbn. lia. Qed.
+
+Example C10_example_emitted_log_roundtrip :
+  decode_log ex8_log = DOk ex8_ev /\ length (rl_data ex8_log) = 256%nat /\
+  message_of_log 4 ex8_log 1600000007 ex8_ev =
+    mkXMsg ex8_tx 1600000007 4294967295 18446744073709551615 4 65535 (repeat x00 12 ++ be 20 4660) (repeat xab 33) 255.
+Proof.
+  destruct (C10_emitted_log_message_fields 4 ex8_contract ex8_ev ex8_bh 1000 ex8_tx 1600000007 ex8_in_range) as [A [B _]];
+    [unfold two63; lia|].
+  repeat apply conj; [exact A|vm_compute; reflexivity|exact B].
+Qed.
+
+(* the same log with non-zero bytes in the padding of the uint16 / uint64 / uint32 / uint8 words and 7 trailing bytes decodes to the
+   same event; cut one byte short of its payload, or with an offset word pointing past the data, it yields an error *)
+Definition ex8_dirty (d : bytes) : bytes :=
+  repeat xff 30 ++ firstn 2 (skipn 30 d) ++ repeat xee 24 ++ firstn 8 (skipn 56 d) ++ repeat xdd 28 ++ firstn 4 (skipn 92 d) ++
+  firstn 32 (skipn 96 d) ++ repeat xcc 31 ++ skipn 159 d ++ repeat x77 7.
+Definition ex8_with_data (d : bytes) : rawlog := mkRaw ex8_contract (rl_topics ex8_log) d ex8_bh 1000 ex8_tx.
+Example C10_example_padding_and_malformed :
+  decode_log (ex8_with_data (ex8_dirty (rl_data ex8_log))) = DOk ex8_ev /\
+  decode_log (ex8_with_data (firstn 224 (rl_data ex8_log))) = DErr DLength /\
+  decode_log (ex8_with_data (firstn 100 (rl_data ex8_log))) = DErr DShort /\
+  decode_log (ex8_with_data (firstn 159 (rl_data ex8_log))) = DErr DOffset /\
+  decode_log (ex8_with_data (firstn 96 (rl_data ex8_log) ++ be 32 225 ++ skipn 128 (rl_data ex8_log))) = DErr DOffset /\
+  decode_log (ex8_with_data []) = DOk (mkXev (be 20 4660) 0 0 0 [] 0) /\
+  decode_log (mkRaw ex8_contract [] (rl_data ex8_log) ex8_bh 1000 ex8_tx) = DPanic /\
+  decode_log (mkRaw ex8_contract [ex8_id] (rl_data ex8_log) ex8_bh 1000 ex8_tx) = DErr DTopics.
+Proof. vm_compute. repeat apply conj; reflexivity. Qed.
+
+(* a history: the log above, another emitter's log, a log that does not unpack (Run returns, both entries stay), a head below the depth,
+   the head 1255 = block 1000 + level 255: the first message leaves with exactly the emitted fields *)
+Definition ex8_ev2 : xev := mkXev (be 20 99) 2 0 0 [] 1.
+Definition ex8_log2 : rawlog := sol_emit ex8_contract ex8_ev2 (be 32 889) 1001 (be 32 778).
+Definition ex8_ok : key -> rans := fun k => mkAns (Some (1, k_bh k)) ENone.
+Definition ex8_hist : list xop :=
+  [XLog ex8_log (Some 1600000007); XLog ex8_log2 (Some 1600000014); XLog (ex8_with_data (firstn 224 (rl_data ex8_log))) (Some 1600000007);
+   XHead 1254 false ex8_ok].
+Example C10_example_raw_history :
+  let r := xrun ex8_cfg [] ex8_hist in
+  nth 2 (snd r) [] = [XDied] /\
+  map fst (fst (xrun ex8_cfg [] (firstn 2 ex8_hist))) = map fst (fst (xrun ex8_cfg [] (firstn 3 ex8_hist))) /\
+  In (XConfirmed (key_of_raw ex8_log2 ex8_ev2) (message_of_log 4 ex8_log2 1600000014 ex8_ev2)) (nth 3 (snd r) []) /\
+  In (XConfirmed (mkXKey ex8_tx ex8_bh (repeat x00 12 ++ be 20 4660) 18446744073709551615)
+                 (mkXMsg ex8_tx 1600000007 4294967295 18446744073709551615 4 65535 (repeat x00 12 ++ be 20 4660) (repeat xab 33) 255))
+     (snd (xstep ex8_cfg (fst r) (XHead 1255 false ex8_ok))).
+Proof.
+  cbv zeta. split; [vm_compute; reflexivity|]. split; [vm_compute; reflexivity|]. split.
+  - vm_compute. repeat ((left; reflexivity) || right).
+  - vm_compute. repeat ((left; reflexivity) || right).
+Qed.
+(* the hypothesis of the end-to-end theorem holds there, and its conclusion names the log *)
+Example C10_example_forwarded_is_log_content :
+  exists r t e, In (XLog r (Some t)) ex8_hist /\ decode_log r = DOk e /\
+    mkXMsg ex8_tx 1600000007 4294967295 18446744073709551615 4 65535 (repeat x00 12 ++ be 20 4660) (repeat xab 33) 255 = message_of_log 4 r t e.
+Proof.
+  destruct C10_example_raw_history as [_ [_ [_ H]]].
+  destruct (C10_forwarded_message_is_log_content ex8_cfg ex8_hist 1255 false ex8_ok _ _ H) as [r [t [e [A [B [C _]]]]]].
+  exists r, t, e. repeat apply conj; assumption.
+Qed.
+
+(* re-observation: a receipt with a foreign-contract copy of the log, the log itself and the second log forwards both messages in
+   receipt order; with a core-contract log that does not unpack in front, nothing *)
+Definition ex8_foreign : rawlog := mkRaw (be 20 7) (rl_topics ex8_log) (rl_data ex8_log) ex8_bh 1000 ex8_tx.
+Example C10_example_raw_reobserve :
+  xreobserve ex8_cfg (Some 1255) (Some 1255) (Some (mkXRcpt 1 (Some 1000) [Some ex8_foreign; Some ex8_log; None; Some ex8_log2])) (Some 1600000007) =
+    [XReobserved (message_of_log 4 ex8_log 1600000007 ex8_ev); XReobserved (message_of_log 4 ex8_log2 1600000007 ex8_ev2)] /\
+  xreobserve ex8_cfg (Some 1255) (Some 1255)
+    (Some (mkXRcpt 1 (Some 1000) [Some ex8_log; Some (ex8_with_data (firstn 224 (rl_data ex8_log)))])) (Some 1600000007) = [] /\
+  xreobserve ex8_cfg (Some 1254) (Some 1300) (Some (mkXRcpt 1 (Some 1000) [Some ex8_log])) (Some 1600000007) = [].
+Proof. vm_compute. repeat apply conj; reflexivity. Qed.
+
 Print Assumptions C10_scan_forward_safe.
 Print Assumptions C10_scan_step_safe.
 Print Assumptions C10_reobserve_safe.
@@ -512,3 +699,16 @@ Print Assumptions C10_restart_liveness.
 Print Assumptions C10_restart_without_guard_stalls_refuted.
 Print Assumptions C10_restart_resumes_after_next_log.
 Print Assumptions C10_log_lost_when_block_time_lookup_fails.
+Print Assumptions C10_event_id_is_the_topic_constant.
+Print Assumptions C10_unpack_log_closed_form.
+Print Assumptions C10_malformed_data_yields_no_event.
+Print Assumptions C10_decode_of_emitted_log.
+Print Assumptions C10_emitted_log_message_fields.
+Print Assumptions C10_log_refines_watcher.
+Print Assumptions C10_abstraction_injective.
+Print Assumptions C10_forwarded_message_is_log_content.
+Print Assumptions C10_pending_key_is_a_function_of_the_log.
+Print Assumptions C10_reobserved_message_is_log_content.
+Print Assumptions C10_malformed_log_ends_run_and_leaves_pending_untouched.
+Print Assumptions C10_topicless_log_panics.
+Print Assumptions C10_malformed_log_in_receipt_forwards_nothing.
